@@ -12,6 +12,9 @@ Import ListNotations.
 Import Coq.Init.Byte.
 Local Open Scope Z_scope.
 
+(* a script as its author writes it: opcode names and data items *)
+Inductive item := Op (name : bytes) | Data (d : bytes).
+
 Inductive push_form := Direct | PD1 | PD2 | PD4.
 
 (* can a data item of length len be pushed with this form at all? *)
@@ -40,6 +43,27 @@ Definition minimal_form (len : Z) : push_form :=
   if len <=? 75 then Direct else if len <=? 255 then PD1 else if len <=? 65535 then PD2 else PD4.
 
 Definition spec_push (d : bytes) : bytes := form_prefix (minimal_form (lenZ d)) (lenZ d) ++ d.
+
+(* ---- the reference assembler -------------------------------------------------------------- *)
+Definition spec_value (name : bytes) : option Z := assoc_b name spec_opcodes.
+
+(* a name of the reference table that is not one of the three PUSHDATA opcodes *)
+Definition spec_nonpush_name (name : bytes) : bool :=
+  match spec_value name with Some v => negb (spec_is_pushdata v) | None => false end.
+
+(* the items the property quantifies over: defined non-push opcode names, non-empty data below 2^32 bytes *)
+Definition valid_item (it : item) : Prop :=
+  match it with
+  | Op name => spec_nonpush_name name = true
+  | Data d => 1 <= lenZ d < 2 ^ 32
+  end.
+
+Definition spec_asm_item (it : item) : bytes :=
+  match it with
+  | Op name => match spec_value name with Some v => [z2b v] | None => [] end
+  | Data d => spec_push d
+  end.
+Definition spec_asm (items : list item) : bytes := concat (map spec_asm_item items).
 
 Lemma minimal_form_valid len : 1 <= len < 2 ^ 32 -> form_valid (minimal_form len) len = true.
 Proof.
